@@ -31,6 +31,27 @@ def run_real(case, ck, n=[0]):
         shutil.rmtree(root, ignore_errors=True)
 
 
+def _worker(arg):
+    i, case, tmp = arg
+    import shutil
+    root = os.path.join(tmp, 'w%d' % i)
+    os.makedirs(root)
+    mod = c13_st if case['level'] == 'st' else c13_db
+    try:
+        return mod.run_case(case, root)
+    finally:
+        shutil.rmtree(root, ignore_errors=True)
+
+
+def run_all(cases, ck):
+    if not ck.thorough or len(cases) < 50:
+        return [run_real(c, ck) for c in cases]
+    import multiprocessing
+    nproc = min(12, max(2, (os.cpu_count() or 4) - 2))
+    with multiprocessing.get_context('fork').Pool(nproc) as pool:
+        return pool.map(_worker, [(i, c, ck.tmp) for i, c in enumerate(cases)], chunksize=8)
+
+
 def shrink(case, ck, sig):
     def fails(ops):
         sub = dict(case, ops=ops)
@@ -40,6 +61,38 @@ def shrink(case, ck, sig):
             return False
     ops = ddmin(case['ops'], fails, max_tests=150)
     return dict(case, ops=ops)
+
+
+def first_diff(real, mo):
+    for i in range(min(len(real), len(mo))):
+        if real[i] != mo[i]:
+            return i
+    return None if len(real) == len(mo) else min(len(real), len(mo))
+
+
+def shrink_mismatch(case, res, mo, j, ck):
+    """minimise the first model/impl disagreement of the run (one driver process per candidate)"""
+    orig = case
+    case = dict(case, copy=False)
+
+    def differs(ops):
+        r = run_real(dict(case, ops=ops), ck)
+        if any(not is_known_open(ck, sg) for sg, _ in r['problems']):
+            return False
+        return first_diff(r['real'], run_driver('Blob', r['lines'])) is not None
+    try:
+        if not differs(case['ops']):
+            return orig, res, mo, j
+        ops = ddmin(case['ops'], differs, max_tests=60)
+        small = dict(case, ops=ops)
+        r = run_real(small, ck)
+        m = run_driver('Blob', r['lines'])
+        jj = first_diff(r['real'], m)
+        if jj is not None and all(is_known_open(ck, sg) for sg, _ in r['problems']):
+            return small, r, m, jj
+    except Exception:
+        pass
+    return orig, res, mo, j
 
 
 def is_known_open(ck, sig):
@@ -63,7 +116,7 @@ def main(argv=None):
     ck = Check('C13', argv)
     ck.extra['modules'] = ['Props.C13', 'Drivers.Blob']
     ck.run_gate(ck.extra['modules'], ['Props.C13'])
-    n_st, n_db = (60, 60) if not ck.thorough else (1500, 1200)
+    n_st, n_db = (140, 200) if not ck.thorough else (6000, 8000)
     if ck.replay_path:
         with open(ck.replay_path) as f:
             cases = [json.load(f)['case']]
@@ -73,13 +126,7 @@ def main(argv=None):
             cases.append(c13_st.gen_case(ck.rng))
         for _ in range(n_db):
             cases.append(c13_db.gen_case(ck.rng))
-    results = []
-    for case in cases:
-        try:
-            res = run_real(case, ck)
-        except InfraError:
-            raise
-        results.append(res)
+    results = run_all(cases, ck)
     # model: one driver process for everything
     all_lines = []
     for res in results:
@@ -92,6 +139,8 @@ def main(argv=None):
         pos += len(res['lines'])
         for k, v in res['stats'].items():
             ck.count(k, v)
+        for ln in res['lines']:
+            ck.count('line:' + ln.split()[0])
         ck.count('cases:%s:%s' % (case['level'], case['flavor']))
         sample = None
         if res['nontrivial']:
@@ -118,6 +167,8 @@ def main(argv=None):
                          dict(small, problems=r2['problems'], lines=r2['lines'], real=r2['real']))
         if not unknown and res['real'] != mo:
             j = [i for i in range(len(mo)) if res['real'][i] != mo[i]][0]
+            if not ck.mismatches:
+                case, res, mo, j = shrink_mismatch(case, res, mo, j, ck)
             ck.mismatch('model/impl differ at line %d %r: impl %s model %s'
                         % (j, res['lines'][j], res['real'][j], mo[j]),
                         dict(case, lines=res['lines'][:j + 1], real=res['real'][:j + 1], model=mo[:j + 1]))
